@@ -4,3 +4,5 @@ package decorator
 
 func (f *fileDecorator) verifFragments() {}
 func (f *fileDecorator) verifLinked()    {}
+
+func (r *FileRestorer) verifCursor(ev, name string, space int, end, bad, file bool, decs []string) {}
